@@ -458,3 +458,51 @@ def relational(ctx, P, J, per_prog_runs, base="default", clause="variant-disagre
                               {"kind": "rel", "program": P[i], "variant": vn, "kwargs": kw, "base_kwargs":
                                [k2 for (v2, k2, r2) in runs if v2 == base][0], "run": r, "base_run": b})
     return n
+
+
+def evidence_family(n, seed):
+    """Propositional, stratified programs built to exercise evidence propagation: several evidence literals of both signs on
+    facts, AD heads and derived atoms (so that values spread through rule bodies, also through negated literals), every atom
+    queried (so that nodes grounded for the evidence are reused by queries), ADs with 3-4 heads whose probabilities sum to
+    exactly one with negative evidence on a head."""
+    rng = random.Random(seed * 7451 + 29)
+    out, seen, tries = [], set(), 0
+    while len(out) < n and tries < 60 * n + 100:
+        tries += 1
+        p = progs.empty_program(["c1"])
+        facts = ["f", "g", "h", "z"][:rng.randint(2, 4)]
+        for f in facts:
+            p["facts"].append({"p": [rng.choice([1, 2, 3, 4, 6]), 10], "atom": atom(f)})
+        adh = []
+        if rng.random() < 0.5:
+            k = rng.randint(3, 4)
+            adh = ["x", "y", "w", "u"][:k]
+            cuts = sorted(rng.sample(range(1, 10), k - 1))
+            vals = [b - a for a, b in zip([0] + cuts, cuts + [10])]
+            rng.shuffle(adh)
+            p["ads"].append({"heads": [{"p": [v, 10], "atom": atom(h)} for h, v in zip(adh, vals)], "body": []})
+        der = ["a", "b", "c", "d"][:rng.randint(2, 4)]
+        for i, d in enumerate(der):
+            lower = facts + adh + der[:i]
+            for _ in range(rng.randint(1, 2)):
+                b = [lit(atom(rng.choice(lower)), 0 if rng.random() < 0.35 else 1) for _ in range(rng.randint(1, 2))]
+                p["rules"].append({"head": atom(d), "body": b})
+        names = facts + adh + der
+        evs = rng.sample(names, rng.randint(1, 3))
+        if adh and rng.random() < 0.7 and not any(e in adh for e in evs):
+            evs[0] = rng.choice(adh)
+        for e in evs:
+            s = 0 if (e in adh and rng.random() < 0.8) or rng.random() < 0.45 else 1
+            p["evidence"].append({"atom": atom(e), "s": s})
+        order = [x for x in names if x not in evs]
+        rng.shuffle(order)
+        for q in order[:rng.randint(2, 5)]:
+            p["queries"].append(atom(q))
+        if not p["queries"]:
+            continue
+        c = progs.canon(p)
+        if c in seen:
+            continue
+        seen.add(c)
+        out.append(p)
+    return out
